@@ -96,7 +96,7 @@ def instanceObject (layer : Nat) (instOff : UInt32) (off : UInt32) : P Unit :=
     let _nameOff ← P.u32le
     heapString start                      -- `string_from_offset(start)`
     let _transform ← P.bytes 36
-    withSome (variant t) fun items => P.forEach items item
+    withSome (variant t) fun items => P.each items item
 
 /-- `LayerSetReferencedList` read through the data heap -/
 def layerSetList : P Unit := do
@@ -160,7 +160,7 @@ def layer (off : UInt32) : P Unit :=
     let h ← layerHead ls
     let r ← layerRefs
     let offs ← offsetTable h.2
-    P.forEach offs (instanceObject ls h.1)
+    P.each offs (instanceObject ls h.1)
     refList ls r.1 obSetRef
     refList ls r.2 obSetEnableRef
 
@@ -178,7 +178,7 @@ def reader : P Unit := do
   let layerCount ← P.u32le
   if i32Val chunkSize ≤ 0 then P.failP else do
   let offs ← offsetTable layerCount
-  P.forEach offs layer
+  P.each offs layer
 
 def fromExisting (b : Bytes) : Res Unit := P.run reader b
 
